@@ -805,7 +805,16 @@ func checkForwarding(r *Run, prog *Program, a *Anchors, pfx string) {
 				var why string
 				switch {
 				case isOptSet(lt) && evalAnchor(ev.Callee):
-					ok2, why = derivedOptionSet(prog, sm.St, last, pOwn)
+					if f, _ := calleeOfSym(last); f != nil && f == a.GetOpts {
+						// the caller holds the list and folds it for the callee: getOpts(<its own list>)
+						if as := symArgs(sm.St, last); len(as) == 1 {
+							ok2, why = derivedFromOptionsSym(sm.St, as[0], pOwn)
+						} else {
+							ok2, why = false, "the option set handed on is not folded from the caller's list"
+						}
+					} else {
+						ok2, why = derivedOptionSet(prog, sm.St, last, pOwn)
+					}
 				case isOptSlice(lt) && (ev.Callee.Signature.Variadic() || evalAnchor(ev.Callee)):
 					ok2, why = derivedFromOptionsSym(sm.St, last, pOwn)
 				default:
